@@ -17,7 +17,9 @@ for p in props:
     checks.append(dict(property_id=p, quick_cmd="./check %s quick" % p, thorough_cmd="./check %s thorough" % p,
         evidence_file="/verif/evidence/%s.json" % p, replay_cmd_template="./check %s --replay {path}" % p, engine="gosym",
         level_claimed=dict(category=c.get("level", "other"), text=c.get("claim", c["explanation"]), design_ref="DESIGN.md §7 " + p),
-        level_note=c.get("note", "Bounded: see evidence.coverage.bounds. Trusted: own go/ssa symbolic executor, contracts for code outside /repo (sync, fmt/errors, time, encoding/json, os...), z3. Outside the claim: integer overflow, Go map iteration order, everything listed under 'Outside the claim' for this property in DESIGN.md §7/§10."),
+        level_note=c.get("note", "Bounds — quick: %s; thorough: %s. Assumptions: %s. Trusted base: own go/ssa symbolic executor and its contracts for code outside /repo (%s), z3 4.8.12 (cross-checked by cvc5 and z3 5.1 in the thorough tier). Outside the claim: integer overflow, Go map iteration order beyond the orders exercised, and what DESIGN.md §7/§10/§12.4 lists for this property. Every counterexample is replayed against the real build before it is reported; exit 2 = inconclusive." % (
+            c.get("bounds", {}).get("quick", "-"), c.get("bounds", {}).get("thorough", "-"), "; ".join(c.get("assumptions", [])) or "none beyond the trusted base",
+            "; ".join(t for t in c.get("trusted_base", []) if t.startswith("contracts") or t.startswith("engine/") or t.startswith("ghost") or t.startswith("eo_compose"))[:600])),
         technique=c.get("technique", "bounded symbolic execution of go/ssa + SMT (z3), counterexamples replayed natively")))
 m = dict(version=1,
     setup_cmd="cd /verif/engine && GOFLAGS=-mod=mod GOPROXY=off GOSUMDB=off GOTOOLCHAIN=local go build -o ../bin/gosym ./cmd/gosym",
